@@ -364,12 +364,20 @@ func splitTop(s, sep string) []string {
 	return parts
 }
 
+var quantAllRe = regexp.MustCompile(`^forall\s+([A-Za-z_][A-Za-z0-9_]*)\s+([A-Za-z_][A-Za-z0-9_.]*)\s*::\s*(.*)$`)
 var quantRe = regexp.MustCompile(`^(forall|exists)\s+([A-Za-z_][A-Za-z0-9_]*)\s+(?:([A-Za-z_][A-Za-z0-9_.]*)\s+)?in\s+(.+?)\.\.(.+?)\s*::\s*(.*)$`)
 
 func RewriteSpecExpr(s string) (string, error) {
 	s = strings.TrimSpace(s)
 	if s == "" {
 		return "", fmt.Errorf("empty expression")
+	}
+	if m := quantAllRe.FindStringSubmatch(s); m != nil && !quantRe.MatchString(s) {
+		body, err := RewriteSpecExpr(m[3])
+		if err != nil {
+			return "", err
+		}
+		return fmt.Sprintf("forallAll(func(%s %s) bool { return %s })", m[1], m[2], body), nil
 	}
 	if m := quantRe.FindStringSubmatch(s); m != nil {
 		body, err := RewriteSpecExpr(m[6])
@@ -523,6 +531,9 @@ func existsRange[T specInteger](lo, hi T, f func(T) bool) bool {
 }
 
 func old[T any](x T) T { return x }
+
+// forallAll: unbounded universal quantification (verifier only; not executable).
+func forallAll[T any](f func(T) bool) bool { panic("forallAll is not executable") }
 
 // sameEntries: the two maps return the same value for every key (absent == zero value).
 func sameEntries[K comparable, V comparable](a, b map[K]V) bool {
